@@ -66,3 +66,26 @@ package electrum
 //@ property C20
 //@ requires o != nil && !ghost.reported
 //@ ensures @C20 reported-iff-called-back: result0 <==> ghost.reported
+
+// at most once (call protocol of the per-block update): an observer whose
+// callback reported is deregistered before any other observer is called and
+// before Update returns. What Deregister does to the slice is NOT proved here
+// (quantified slice contents are outside the verifier).
+//@ ghost pendingDereg bool
+//@ interface TXObserver.Callback
+//@ requires @C20 previous-report-deregistered: !ghost.pendingDereg
+//@ sets ghost.pendingDereg = (result0 && (result1 == nil || errors.Is(result1, swap.ErrSwapDoesNotExist)))
+//@ assigns nothing
+//@ interface TXObserver.GetSwapID
+//@ assigns nothing
+
+//@ func (*liquidBlockHeaderSubscriber).Deregister
+//@ property C20
+//@ sets ghost.pendingDereg = false
+//@ assigns h.txObservers
+
+//@ func (*liquidBlockHeaderSubscriber).Update
+//@ property C20
+//@ requires h != nil && !ghost.pendingDereg
+//@ loop 0 invariant !ghost.pendingDereg
+//@ ensures @C20 reported-observers-deregistered: !ghost.pendingDereg
